@@ -234,7 +234,7 @@ class Config:
     """Per-unit extraction configuration (which generics are instantiated)."""
 
     def __init__(self, type_subst=None, drop_generics=("N",), drop_where=None,
-                 float_lit="R::lit(Ghost({p}), Ghost({q}))", cast_f64="R::cast({e})",
+                 float_lit="R::lit({p}i128, {q}u128)", cast_f64="R::cast({e})",
                  extra_subst=None, keep_traits=()):
         base = [
             ("Complex<<N as ComplexField>::RealField>", "C"),
@@ -529,7 +529,7 @@ def postfix_operand_start(src, k, lo):
         raise Undecided(f"{src.rel}:{t.line}: cannot find operand of cast")
 
 
-def rewrite_floats_and_casts(rw, src, lo, hi, cfg):
+def rewrite_floats_and_casts(rw, src, lo, hi, cfg, skip=None):
     toks = src.toks
     for k in range(lo, hi):
         t = toks[k]
@@ -540,6 +540,8 @@ def rewrite_floats_and_casts(rw, src, lo, hi, cfg):
             s = postfix_operand_start(src, k - 1, lo)
             rw.insert(s, cfg.cast_f64.split("{e}")[0], "R3-cast-f64")
             rw.replace(k, k + 2, cfg.cast_f64.split("{e}")[1], "R3-cast-f64")
+            if skip is not None:
+                skip.append((k, k + 2))
 
 
 def find_loops(src, lo, hi):
